@@ -314,6 +314,16 @@ impl Reader {
 					)));
 				}
 
+				// The record is checksummed like any other: a damaged compression
+				// byte would otherwise make every later record decode as garbage.
+				let data = &self.buffer[self.buffer_offset..self.buffer_offset + length as usize];
+				if calculate_crc32(&[type_byte], data) != crc {
+					return Err(Error::IO(IOError::new(
+						io::ErrorKind::Other,
+						"checksum mismatch in compression type record",
+					)));
+				}
+
 				// Parse and store compression type
 				if length > 0 {
 					let compression_byte = self.buffer[self.buffer_offset];
